@@ -251,7 +251,8 @@ def analyse(repo: Path):
         e = FnEffects(fn, mod_names, hook_ok)
         out[name] = dict(opt_writes=e.opt_writes, arg_stores=e.arg_stores, global_state=e.global_state, file=rel,
                          hook_sites=e.hook_sites)
-        # other memoised / stateful helpers in the same file
+        # other memoised / stateful helpers in the same file: every top-level function of the file is analysed for stores into
+        # module-level state (a solver can reach them by a call)
         for st in tree.body:
             if isinstance(st, ast.FunctionDef) and st.name not in (name,):
                 for d in st.decorator_list:
@@ -259,6 +260,10 @@ def analyse(repo: Path):
                     nm = n.attr if isinstance(n, ast.Attribute) else getattr(n, "id", "")
                     if nm in MEMO:
                         out[name]["global_state"].append(f"{rel}: helper {st.name} is memoised with @{nm}")
+                if st.name not in SOLVERS and st.name not in HELPERS:
+                    he = FnEffects(st, mod_names, hook_ok)
+                    for g in he.global_state:
+                        out[name]["global_state"].append(f"{rel}: helper {g}")
     return out
 
 
